@@ -3,6 +3,7 @@
   parsers for type terms and value terms. Not used by any theorem.
 -/
 import EpsModel.Header
+import EpsModel.Derive
 namespace Eps
 
 def hexDigit (n : Nat) : Char := "0123456789abcdef".toList.getD n '?'
@@ -228,5 +229,63 @@ partial def pTy : P Ty := fun cs =>
         | _ => none
       | _ => none
     | _ => none
+
+
+/-! ### definition-level terms (C05) -/
+
+partial def pTyExpr : P TyExpr := fun cs =>
+  match cs with
+  | 'P' :: r => (pNat r).map fun (i, r) => (.param i, r)
+  | 'T' :: '(' :: r => match pTy r with
+    | some (t, ')' :: r) => some (.ty t, r)
+    | _ => none
+  | _ =>
+    match pIdent cs with
+    | some (kw, '(' :: r) =>
+      let un (k : TyExpr → TyExpr) : Option (TyExpr × List Char) := match pTyExpr r with
+        | some (e, ')' :: r) => some (k e, r)
+        | _ => none
+      let cnt (k : TyExpr → Nat → TyExpr) : Option (TyExpr × List Char) := match pNat r with
+        | some (n, ',' :: r) => match pTyExpr r with
+          | some (e, ')' :: r) => some (k e n, r)
+          | _ => none
+        | _ => none
+      match kw with
+      | "vec" => un .vec | "bs" => un .boxSlice | "opt" => un .option | "bnd" => un .bound | "ph" => un .phantom
+      | "arr" => cnt .array | "carr" => cnt .constArray
+      | _ => none
+    | _ => none
+
+def pDef : P Def := fun cs =>
+  match cs with
+  | 'd' :: 'e' :: 'f' :: '(' :: r => match pHex r with
+    | some (name, ',' :: k :: ',' :: c :: ',' :: r) => match pNat r with
+      | some (al, ',' :: '[' :: r) => match pList pHex ']' r with
+        | some (reprs, ',' :: r) => match pNat r with
+          | some (ntp, ',' :: '[' :: r) =>
+            let pConst : P (B × Prim) := fun cs => match pHex cs with
+              | some (n, ':' :: r) => match pIdent r with
+                | some (pn, r) => (primOf pn).map fun p => ((n, p), r)
+                | none => none
+              | _ => none
+            match pList pConst ']' r with
+            | some (consts, ',' :: '[' :: r) =>
+              let pField : P FieldDef := fun cs => match pHex cs with
+                | some (n, ':' :: r) => (pTyExpr r).map fun (e, r) => (⟨n, e⟩, r)
+                | _ => none
+              let pVariant : P VariantDef := fun cs => match pHex cs with
+                | some (n, '{' :: r) => (pList pField '}' r).map fun (fs, r) => (⟨n, fs⟩, r)
+                | _ => none
+              match pList pVariant ']' r with
+              | some (vs, ')' :: r) =>
+                some ({ name := name, isEnum := k == 'E', zero := c == 'Z', deepAttr := c == 'D', reprs := reprs,
+                        alignAttr := al, nTypeParams := ntp, constParams := consts, variants := vs }, r)
+              | _ => none
+            | _ => none
+          | _ => none
+        | _ => none
+      | _ => none
+    | _ => none
+  | _ => none
 
 end Eps
